@@ -8,6 +8,7 @@ import (
 	"os"
 	"sort"
 	"strings"
+	"sync"
 	"testing"
 	"time"
 
@@ -917,4 +918,60 @@ func TestC13(t *testing.T) {
 		}
 		stats.ClassN("requests-reaching-the-kernel", out.reached)
 	})
+	if !t.Failed() {
+		overload(t, stats, dir)
+	}
+}
+
+// overload: ordinary requests that the kernel has to turn away (api queue of 1, coroutine pool of 1, or a request
+// that meets the shutdown) are requests a client can send: each must be answered (503 / Unavailable or its normal
+// answer), over both protocols, and the process must survive them.
+func overload(t *testing.T, stats *core.Stats, dir string) {
+	for round, flags := range [][]string{{"--api-size", "1"}, {"--system-coroutine-max-size", "1"}} {
+		sdir := fmt.Sprintf("%s/overload%d", dir, round)
+		_ = os.MkdirAll(sdir, 0o755)
+		srv := NewServer(sdir, append(append([]string{}, serverFlags...), flags...)...)
+		if err := srv.Start(); err != nil {
+			t.Fatalf("INCONCLUSIVE start for the overload round: %v", err)
+		}
+		g := srv.Grpc()
+		var wg sync.WaitGroup
+		var mu sync.Mutex
+		dropped := []string{}
+		for i := 0; i < 120; i++ {
+			wg.Add(1)
+			go func(i int) {
+				defer wg.Done()
+				if i%3 == 0 {
+					res := srv.Do(HTTPReq{Method: "GET", Path: fmt.Sprintf("/promises/ov%d", i)})
+					if res.Err != nil {
+						mu.Lock()
+						dropped = append(dropped, fmt.Sprintf("HTTP GET /promises/ov%d: %v", i, res.Err))
+						mu.Unlock()
+					}
+					return
+				}
+				ctx, cancel := context.WithTimeout(context.Background(), 8*time.Second)
+				defer cancel()
+				_, _ = g.Promises.ReadPromise(ctx, &pb.ReadPromiseRequest{Id: fmt.Sprintf("ov%d", i)})
+			}(i)
+		}
+		wg.Wait()
+		stats.Class("overload-round:" + strings.Join(flags, "="))
+		for i := 0; i < 120; i++ {
+			stats.Eval()
+		}
+		time.Sleep(300 * time.Millisecond)
+		alive := srv.Alive()
+		logTail := srv.LogTail(25)
+		srv.Kill()
+		if !alive {
+			core.SaveFailure("last", map[string]any{"violation": "a burst of ordinary requests terminated the server", "flags": flags, "server_log": strings.Split(logTail, "\n")})
+			t.Fatalf("VIOLATION C13 a burst of 120 ordinary read requests (HTTP and gRPC) against a server started with %v terminated the server process:\n%s", flags, truncate(logTail, 2500))
+		}
+		if len(dropped) > 0 {
+			core.SaveFailure("last", map[string]any{"violation": "requests got no reply under overload", "flags": flags, "requests": dropped})
+			t.Fatalf("VIOLATION C13 %d request(s) turned away by a server started with %v got no reply at all, e.g. %s", len(dropped), flags, dropped[0])
+		}
+	}
 }
